@@ -11,92 +11,17 @@ func init() {
 	zzverif.Register("ops.H_C14", H_C14)
 }
 
-func zzProd(xs []int) int {
-	p := 1
-	for _, x := range xs {
-		p *= x
-	}
-	return p
-}
-
-func zzUnravel(flat int, shape []int) []int {
-	idx := make([]int, len(shape))
-	for i := len(shape) - 1; i >= 0; i-- {
-		idx[i] = flat % shape[i]
-		flat /= shape[i]
-	}
-	return idx
-}
-
-func zzRavel(idx []int, shape []int) int {
-	f := 0
-	for i := range shape {
-		f = f*shape[i] + idx[i]
-	}
-	return f
-}
-
-// zzBroadcastShape returns the ONNX multidirectional broadcast shape, ok=false when incompatible.
-func zzBroadcastShape(a, b []int) ([]int, bool) {
-	n := len(a)
-	if len(b) > n {
-		n = len(b)
-	}
-	out := make([]int, n)
-	for i := 0; i < n; i++ {
-		da, db := 1, 1
-		if k := len(a) - n + i; k >= 0 {
-			da = a[k]
-		}
-		if k := len(b) - n + i; k >= 0 {
-			db = b[k]
-		}
-		switch {
-		case da == db:
-			out[i] = da
-		case da == 1:
-			out[i] = db
-		case db == 1:
-			out[i] = da
-		default:
-			return nil, false
-		}
-	}
-	return out, true
-}
-
-// zzBroadcastData returns src (row-major, shape srcShape) broadcast to outShape.
-func zzBroadcastData[E any](src []E, srcShape, outShape []int) []E {
-	out := make([]E, zzProd(outShape))
-	off := len(outShape) - len(srcShape)
-	for f := range out {
-		idx := zzUnravel(f, outShape)
-		sidx := make([]int, len(srcShape))
-		for k := range srcShape {
-			if srcShape[k] != 1 {
-				sidx[k] = idx[off+k]
-			}
-		}
-		out[f] = src[zzRavel(sidx, srcShape)]
-	}
-	return out
-}
-
-func zzTensor[E any](data []E, shape []int) tensor.Tensor {
-	return tensor.New(tensor.WithShape(shape...), tensor.WithBacking(append([]E(nil), data...)))
-}
-
 func c14Case[E zzverif.Scalar](v *zzverif.T) {
 	sa, sb := v.CInts("a"), v.CInts("b")
 	uni := v.CStr("mode") == "uni"
-	da := zzverif.Syms[E](v, "a", zzProd(sa))
-	db := zzverif.Syms[E](v, "b", zzProd(sb))
-	A, B := zzTensor(da, sa), zzTensor(db, sb)
+	da := zzverif.Syms[E](v, "a", zzverif.Prod(sa))
+	db := zzverif.Syms[E](v, "b", zzverif.Prod(sb))
+	A, B := zzverif.NewTensor(da, sa), zzverif.NewTensor(db, sb)
 	snapA, snapB := v.Snapshot(A), v.Snapshot(B)
 	v.Protect("A", A)
 	v.Protect("B", B)
 
-	outShape, compatible := zzBroadcastShape(sa, sb)
+	outShape, compatible := zzverif.BroadcastShape(sa, sb)
 	if uni && compatible {
 		// unidirectional: the result must have A's shape
 		if len(outShape) != len(sa) {
@@ -133,8 +58,8 @@ func c14Case[E zzverif.Scalar](v *zzverif.T) {
 	if err != nil {
 		return
 	}
-	v.AssertTensor("C14.A-broadcast", oa, outShape, zzBroadcastData(da, sa, outShape))
-	v.AssertTensor("C14.B-broadcast", ob, outShape, zzBroadcastData(db, sb, outShape))
+	v.AssertTensor("C14.A-broadcast", oa, outShape, zzverif.BroadcastData(da, sa, outShape))
+	v.AssertTensor("C14.B-broadcast", ob, outShape, zzverif.BroadcastData(db, sb, outShape))
 	if uni {
 		v.Assert("C14.uni-first-operand-as-is", oa == A)
 	}
